@@ -75,7 +75,18 @@ func (sg *specGen) attrType(vals []cty.Value, concrete bool) cty.Type {
 // nlabels BlockLabelSpecs are added when labelsInside is set.
 func (sg *specGen) bodySpec(bodies []*gen.Body, concrete bool, labelsInside int) hcldec.ObjectSpec {
 	obj := hcldec.ObjectSpec{}
+	// (sometimes the last label is read only as the default of an optional argument)
+	viaDefault := -1
+	if labelsInside > 0 && gen.Chance(sg.r, 0.25) {
+		viaDefault = labelsInside - 1
+		obj["zz_label_or_argument"] = &hcldec.DefaultSpec{Primary: &hcldec.AttrSpec{Name: "zz_label_or_argument", Type: cty.String}, Default: &hcldec.BlockLabelSpec{Index: viaDefault, Name: fmt.Sprintf("l%d", viaDefault)}}
+		sg.use("DefaultSpec")
+		sg.use("BlockLabelSpec")
+	}
 	for i := 0; i < labelsInside; i++ {
+		if i == viaDefault {
+			continue
+		}
 		obj[fmt.Sprintf("label%d", i)] = &hcldec.BlockLabelSpec{Index: i, Name: fmt.Sprintf("l%d", i)}
 		sg.use("BlockLabelSpec")
 	}
